@@ -195,6 +195,8 @@ func envAPI(name string) (IntrinsicFn, bool) {
 
 func registerMisc(e *Engine) {
 	_ = fmt.Sprintf
+	registerLevelDB(e)
+	registerCodec(e)
 }
 
 type ldbBatch struct {
